@@ -38,6 +38,8 @@ enum Placement {
     Blackholed,
     ResetAfterBytes(u64),
     Silent,
+    /// the node under test knows no address at all for this peer
+    NoAddress,
 }
 
 #[derive(Clone, Copy, Debug, Hash, PartialEq)]
@@ -66,6 +68,63 @@ impl Scen {
             "ops": self.ops.iter().map(|(t, o)| json!([t, format!("{o:?}")])).collect::<Vec<_>>(),
             "replication": self.replication, "chaos_pct": self.chaos_pct, "max_outgoing": self.max_outgoing, "gen_seed": self.seed})
     }
+}
+
+fn num_in(s: &str) -> u64 {
+    s.chars().filter(|c| c.is_ascii_digit()).collect::<String>().parse().unwrap_or(0)
+}
+
+/// Rebuild a scenario from a replay file (directed scenarios are not reproducible from the
+/// generator seed alone).
+fn scen_from_json(v: &Value) -> Option<Scen> {
+    let gs = v["gen_seed"].as_u64()?;
+    let mut s = scen_from_seed(gs);
+    if let Some(pl) = v["placements"].as_array() {
+        s.placements = pl
+            .iter()
+            .filter_map(|p| p.as_str())
+            .map(|p| match p {
+                "Healthy" => Placement::Healthy,
+                "UndialableAddress" => Placement::UndialableAddress,
+                "RefusedPort" => Placement::RefusedPort,
+                "Blackholed" => Placement::Blackholed,
+                "Silent" => Placement::Silent,
+                "NoAddress" => Placement::NoAddress,
+                other => Placement::ResetAfterBytes(num_in(other)),
+            })
+            .collect();
+    }
+    if let Some(ops) = v["ops"].as_array() {
+        s.ops = ops
+            .iter()
+            .filter_map(|o| {
+                let t = o[0].as_u64()?;
+                let name = o[1].as_str()?;
+                let q = num_in(name) as u8;
+                Some((t, if name.starts_with("FindNode") {
+                    Op::FindNode
+                } else if name.starts_with("PutRecordToPeers") {
+                    Op::PutRecordToPeers(q)
+                } else if name.starts_with("PutRecord") {
+                    Op::PutRecord(q)
+                } else if name.starts_with("GetRecord") {
+                    Op::GetRecord(q)
+                } else if name.starts_with("StartProviding") {
+                    Op::StartProviding(q)
+                } else {
+                    Op::GetProviders
+                }))
+            })
+            .collect();
+    }
+    s.max_outgoing = v["max_outgoing"].as_u64().map(|x| x as usize);
+    if let Some(r) = v["replication"].as_u64() {
+        s.replication = r as usize;
+    }
+    if let Some(c) = v["chaos_pct"].as_u64() {
+        s.chaos_pct = c as u8;
+    }
+    Some(s)
 }
 
 fn quorum(q: u8) -> Quorum {
@@ -212,6 +271,10 @@ async fn run_scenario(s: Scen, exec: ChaosExecutor, lag: LagMonitor) -> RunOut {
         let peer = targets[i].peer;
         let (addr, proxy): (Multiaddr, Option<Proxy>) = match p {
             Placement::Healthy | Placement::Silent => (targets[i].addr.clone(), None),
+            Placement::NoAddress => {
+                proxies.push(None);
+                continue;
+            }
             Placement::UndialableAddress => (format!("/ip4/127.0.0.1/udp/{}/quic-v1/p2p/{peer}", 10_000 + i).parse().expect("addr"), None),
             Placement::RefusedPort => {
                 let dead = {
@@ -383,6 +446,7 @@ fn check(rep: &mut Report, s: &Scen, o: &RunOut) {
                 Placement::Blackholed => "blackholed",
                 Placement::ResetAfterBytes(_) => "reset",
                 Placement::Silent => "silent",
+                Placement::NoAddress => "no-address",
             })
             .collect();
         kinds.sort();
@@ -414,7 +478,7 @@ fn check(rep: &mut Report, s: &Scen, o: &RunOut) {
                     let tag = if s.max_outgoing.is_some() {
                         "outbound-connection-limit-configured"
                     } else {
-                        ["undialable-address", "refused-port", "blackholed", "reset", "silent"].iter().find(|k| placements_tag.contains(**k)).copied().unwrap_or("healthy-only")
+                        ["undialable-address", "no-address", "refused-port", "blackholed", "reset", "silent"].iter().find(|k| placements_tag.contains(**k)).copied().unwrap_or("healthy-only")
                     };
                     rep.violation(
                         format!("C16/no-terminal-event/{opname}/{tag}"),
@@ -463,7 +527,10 @@ fn check(rep: &mut Report, s: &Scen, o: &RunOut) {
                     // with only one operation in the scenario the receipts can be attributed exactly.
                     rep.hit("quorum_checks");
                     let single_op = s.ops.len() == 1;
-                    let need = if single_op && matches!(op, Op::PutRecordToPeers(_)) { want(*q, ntargets) } else { 1 };
+                    // targets the node knows no address for are dropped before the sending phase and
+                    // the documented clamp is by the peers that remain (at least 1)
+                    let addressable = s.placements.iter().filter(|p| **p != Placement::NoAddress).count();
+                    let need = if single_op && matches!(op, Op::PutRecordToPeers(_)) { want(*q, addressable) } else { 1 };
                     if reached < need {
                         rep.violation(
                             format!("C16/success-without-quorum/{opname}"),
@@ -492,6 +559,7 @@ fn gen(rng: &mut Rng) -> Scen {
                 Placement::ResetAfterBytes(300),
                 Placement::ResetAfterBytes(2000),
                 Placement::Silent,
+                Placement::NoAddress,
             ])
         })
         .collect();
@@ -530,8 +598,7 @@ pub fn run(ctx: &Ctx) -> Report {
     let rt = tokio::runtime::Builder::new_multi_thread().worker_threads(workers).enable_all().build().expect("runtime");
     let scenarios: Vec<Scen> = if let Some(path) = &ctx.replay {
         let v: Value = serde_json::from_slice(&std::fs::read(path).expect("replay")).expect("json");
-        let gs = v["replay"]["gen_seed"].as_u64().unwrap_or(1);
-        let s = scen_from_seed(gs);
+        let s = scen_from_json(&v["replay"]).unwrap_or_else(|| scen_from_seed(1));
         vec![s.clone(), s]
     } else {
         let mut rng = ctx.rng("c16");
@@ -543,6 +610,16 @@ pub fn run(ctx: &Ctx) -> Report {
         d.ops = vec![(0, Op::PutRecordToPeers(0))];
         d.max_outgoing = None;
         v.push(d);
+        // directed: no target is usable at all: a quorum of N/All must not be reported as reached
+        for (k, q) in [2u8, 255, 0, 3].iter().enumerate() {
+            if (k + ctx.shard) % 2 == 0 {
+                let mut d = scen_from_seed(rng.u64());
+                d.placements = if k % 2 == 0 { vec![Placement::NoAddress, Placement::NoAddress] } else { vec![Placement::NoAddress, Placement::UndialableAddress, Placement::NoAddress] };
+                d.ops = vec![(0, Op::PutRecordToPeers(*q))];
+                d.max_outgoing = None;
+                v.push(d);
+            }
+        }
         v
     };
     let results: Vec<(Scen, RunOut)> = rt.block_on(async {
